@@ -25,6 +25,12 @@
 //   hskpub <sA> <idA> <bitsA> <peer> <remote_pub> <nonce>
 //        one fresh node receiving an arbitrary public value / nonce
 //                                    -> ok=<b> k=<hex|->
+//
+// VERIF_INTERNALS (default 1): `material` calls the anonymous-namespace helper make_handshake_material of Node.cpp by
+// name; with -DVERIF_INTERNALS=0 it answers `skip` and everything else runs on KeyExchange::*, KeyManager and Node members.
+#ifndef VERIF_INTERNALS
+#define VERIF_INTERNALS 1
+#endif
 #include "src/core/Node.cpp"
 
 #include "common/lineproto.hpp"
@@ -81,8 +87,12 @@ int main(int argc, char** argv) {
             return verif::to_hex(network::KeyExchange::derive_shared_secret(u32(t[1]), u32(t[2])).bytes);
         }
         if (op == "material" && t.size() == 3) {
+#if !VERIF_INTERNALS
+            return "skip";
+#else
             return "ab=" + verif::to_hex(make_handshake_material(u32(t[1]), u32(t[2]))) +
                    " ba=" + verif::to_hex(make_handshake_material(u32(t[2]), u32(t[1])));
+#endif
         }
         if (op == "dh" && t.size() == 3) {
             const auto a = u32(t[1]);
